@@ -470,4 +470,8 @@ func propC38(c *Check) {
 	ruleR29_1(c)
 	ruleR38_5(c)
 	ruleR03_4(c)
+	// a compaction that failed must not stay registered: its ranges would refuse every later
+	// compaction of level 0, and writers, the flusher and Close wait for level 0 to shrink
+	ruleR14_1(c)
+	ruleR03_3(c) // nor may a refused commit keep its timestamp pending: every later reader waits for it
 }
